@@ -603,7 +603,7 @@ impl Monitor for PayMonitor {
 		if self.final_settle {
 			for (pi, p) in self.ps.iter() {
 				let rec = &w.payments[*pi];
-				if self.pay_tainted(w, *pi) || !matches!(rec.class, "wrong-secret" | "foreign-secret" | "underpaid" | "incomplete-mpp" | "disagreeing-parts") {
+				if self.pay_tainted(w, *pi) || !matches!(rec.class, "wrong-secret" | "foreign-secret" | "underpaid" | "incomplete-mpp" | "disagreeing-parts" | "expired-secret") {
 					continue;
 				}
 				for i in p.htlcs.iter().flatten() {
